@@ -12,6 +12,42 @@ CHECKS = {
   "proptest tape-decoded program generation + differential execution on SQLite against an independent reference interpreter",
   "Each generated relational-core program is compiled (sqlite, generic), executed on an in-process SQLite over a generated instance and compared - values, multiplicities, and order where a sort is in effect - with a reference interpreter written from the PRQL book. Sampling: holds on everything explored, shrunk counterexample otherwise.",
   MODEL_NOTE, "DESIGN.md §2, §3 C01"),
+ "C05": ("sqlbind",
+  "proptest program generation + comparison of the resolver's final frame with the binder-computed / prepared-statement column list (all 12 dialects)",
+  "The emitted SQL of every dialect is re-parsed and its output column list computed by an independent binder (expanding *, t.*, EXCLUDE, CTEs, set operations); for sqlite/generic also the prepared statement's columns. Arity and every named column of the resolver's final frame (RQ relation.columns) must agree.",
+  "Trusted: sqlparser 0.60 as per-dialect parser, the binder in harness/src/sqlbind.rs, RQ relation.columns as the frame. Recorded findings (dedup, helper leak, order) are attributed by exact predicates.", "DESIGN.md §3 C05"),
+ "C06": ("model",
+  "proptest base-program generation + tape-chosen rewrites (let/into extraction, function abstraction, filter split/merge, identity insertion, module move) with a metamorphic oracle on SQLite results",
+  "Both the base and the rewritten program are compiled and executed on SQLite; their results must be equal as multisets (columns aligned by name). Reference-free.",
+  MODEL_NOTE + " Rewrites other than filter split/merge and identity insertion may leave the language's scoping rules; a rejected rewrite is counted, not judged.", "DESIGN.md §3 C06"),
+ "C07": ("sqlbind",
+  "proptest program generation x 12 dialects, each emitted text re-parsed with sqlparser's dialect parser and bound by an independent scope checker",
+  "Every accepted generated program (plus dialect-sensitive extras) is compiled for all 12 dialects; each text must parse as exactly one query under sqlparser's parser for that dialect and every table, qualifier and column must resolve in the scope of its clause; set operations must have equal arity.",
+  "Trusted: sqlparser 0.60 per dialect (known gaps excluded per dialect and construct: ClickHouse infix DIV, Redshift zero-column SELECT, AnsiDialect stricter than Generic) and the binder. Engine semantics other than SQLite's are not executed.", "DESIGN.md §3 C07"),
+ "C08": ("api",
+  "proptest value-first literal generation (own encoder for every documented spelling) + execution on SQLite and per-dialect token-structure comparison",
+  "A value is generated first and spelled in a documented form; the value SQLite returns must be the value, and under every dialect's tokenizer the statement must have the token structure it has with an innocuous literal, with the string token unescaping to the value.",
+  "Trusted: SQLite as executor (its decimal parsing within 1e-14), sqlparser's per-dialect tokenizer as the model of each engine's lexical rules.", "DESIGN.md §3 C08"),
+ "C09": ("sqlbind",
+  "proptest program generation with a hazardous identifier pool + differential execution on SQLite + case-sensitive binding under 12 dialects",
+  "Tables, let-tables, aliases and columns get hazardous names (keywords, spaces, quotes, mixed case, non-ASCII, leading digits, table_N, _expr_N); rows are compared with the reference interpreter on SQLite tables created with exactly those names, and the SQL of every dialect must bind case-sensitively against them.",
+  MODEL_NOTE + " Case folding of engines other than SQLite is not executed.", "DESIGN.md §3 C09"),
+ "C10": ("api",
+  "proptest generation of well-scoped programs + one scope-breaking edit (5 classes), oracle = compile returns Err",
+  "A compiling program with fully known frames gets exactly one edit (dropped column referenced, ambiguous bare name after join, surplus positional argument, unknown named argument, scalar as relation), usually followed by further valid transforms; compile must fail.",
+  "Trusted: the generator's frame model for what is 'dropped' / 'ambiguous' (calibrated on 27 hand-written cases). One recorded finding with an exact predicate.", "DESIGN.md §3 C10"),
+ "C11": ("history",
+  "proptest generation of call histories over several threads; oracle = canonical output from fresh child processes (run twice)",
+  "Histories of 3-12 calls (compile, pl_to_rq, pl_to_prql, permuted multi-file project) on 1-8 barrier-released threads, including failing and panicking calls; every output must equal that of the same call in a fresh process, and two fresh processes must agree.",
+  "Thread schedules are sampled, not owned; hash seeds vary by process and thread. Three defects found this way were repaired by fix: commits.", "DESIGN.md §3 C11"),
+ "C12": ("fuzz",
+  "proptest token-level mutation of valid programs + structure-aware mutation of PL/RQ JSON + nesting ladder, driven in isolated worker processes; oracle = no panic / deadly signal",
+  "Mutated sources and mutated PL/RQ JSON documents are driven through every public stage in worker processes (a stack overflow kills the worker, not the check); a panic or abort is a violation unless it matches a recorded panic (file + message prefix).",
+  "Termination and polynomial time cannot be decided by testing: watchdog time-outs are inconclusive. Recorded panics are matched on file and message prefix.", "DESIGN.md §3 C12"),
+ "C13": ("api",
+  "proptest fault injection into valid programs with ASCII / multi-byte / CRLF padding; validity predicate over every ErrorMessage + metamorphic padding invariance",
+  "Each returned error must have a reason, a span inside the source (character offsets), a location equal to the span's line/column and a rendered message quoting that line; replacing ASCII padding before the fault by multi-byte text of equal character length must not move span or location.",
+  "Lexer-class faults are strict under multi-byte padding; parser/resolver-class faults under multi-byte padding are the recorded byte-offset finding. Multi-file projects are not generated.", "DESIGN.md §3 C13"),
  "C02": ("model",
   "exhaustive (parent, child, side) operator table + proptest random typed expression trees, each evaluated by SQLite over a cross-product value table against a reference scalar evaluator of the intended tree",
   "Every type-correct (parent operator, child operator, left|right) combination (exhaustive within that table) and random typed trees to depth 5 are printed with the parentheses the documented table requires, compiled for sqlite/generic, evaluated by SQLite on all 675 operand combinations of the value domain and compared per row with the reference evaluator.",
@@ -75,8 +111,11 @@ def main():
             "add_only": True,
         },
         "engines": [
-            {"name": "model", "path": "harness/src/model", "serves_properties": ["C01", "C02", "C03", "C04"], "kind_free_text": "tape-decoded abstract programs, PRQL printer, reference interpreter, in-process SQLite executor"},
-            {"name": "api", "path": "harness/src/prop", "serves_properties": ["C14", "C15", "C18"], "kind_free_text": "round-trip / differential / metamorphic oracles over the public prqlc API on generated programs"},
+            {"name": "model", "path": "harness/src/model", "serves_properties": ["C01", "C02", "C03", "C04", "C06", "C09"], "kind_free_text": "tape-decoded abstract programs, PRQL printer, reference interpreter, in-process SQLite executor"},
+            {"name": "sqlbind", "path": "harness/src/sqlbind.rs", "serves_properties": ["C05", "C07", "C09"], "kind_free_text": "binder over sqlparser's AST (serde JSON form): scopes, column resolution, output columns, for 12 dialects"},
+            {"name": "history", "path": "harness/src/prop/c11.rs", "serves_properties": ["C11"], "kind_free_text": "call histories on threads vs canonical outputs from fresh child processes"},
+            {"name": "fuzz", "path": "harness/src/prop/c12.rs", "serves_properties": ["C12"], "kind_free_text": "token / JSON mutation in isolated worker processes, nesting ladder in child processes"},
+            {"name": "api", "path": "harness/src/prop", "serves_properties": ["C08", "C10", "C13", "C14", "C15", "C18"], "kind_free_text": "round-trip / differential / metamorphic oracles over the public prqlc API on generated programs"},
             {"name": "rqcheck", "path": "harness/src/rqcheck.rs", "serves_properties": ["C16"], "kind_free_text": "validator of RQ invariants over the JSON form of RelationalQuery"},
             {"name": "lexenum", "path": "harness/src/prop/c17.rs", "serves_properties": ["C17"], "kind_free_text": "exhaustive enumeration of short strings + proptest tape search"},
         ],
